@@ -37,6 +37,7 @@ class FakeSocket:
         self.tx_pending = b""
         self.peer_gone = False
         self.pending_send_err = False
+        self.dead = False  # a reset / broken-pipe error has been reported: the connection stays unusable
         self.world.sockets.append(self)
 
     # --- options
@@ -268,10 +269,14 @@ class World:
         self.send_calls.append(data)
         if sock.closed or sock.ep is None:
             raise OSError(9, "Bad file descriptor")
+        if sock.dead:
+            raise BrokenPipeError(32, "Broken pipe")
         if sock.pending_send_err:
             sock.pending_send_err = False
+            sock.dead = True
             raise ConnectionResetError(104, "Connection reset by peer")
         if fault == "send_err":
+            sock.dead = True
             raise BrokenPipeError(32, "Broken pipe")
         if fault == "send_zero":
             return 0
@@ -313,7 +318,14 @@ class World:
             raise _socket.timeout("timed out")
         if sock.closed or sock.ep is None:
             raise OSError(9, "Bad file descriptor")
+        if sock.dead:
+            raise ConnectionResetError(104, "Connection reset by peer")
         if fault == "recv_err":
+            sock.dead = True
+            raise ConnectionResetError(104, "Connection reset by peer")
+        if sock.pending_send_err:
+            sock.pending_send_err = False
+            sock.dead = True
             raise ConnectionResetError(104, "Connection reset by peer")
         if fault == "recv_close":
             sock.peer_gone = True
